@@ -147,8 +147,16 @@ type spkUniverse struct {
 	EPVars   []spkEPVariant
 	NodeVars map[string][]spkNodeVariant // per node name
 	L2       bool
-	// Preload: the cluster already has service s1 (variant 0) with its endpoints (variant 0) when the speaker starts.
-	Preload bool
+	// Preload: the cluster already has service s1 (variant 0) with its endpoints (variant 0) when the speaker
+	// starts; Preload == 2: also s2 with the same variant (two services sharing the address).
+	Preload int
+	// Rich, when set, replaces Preload: explicit (service index, variant index) pairs announced at start under config InitCfg.
+	Rich    [][2]int
+	InitCfg int
+	// SvcVarsFor restricts the variants offered for a service index (nil = all).
+	SvcVarsFor map[int][]int
+	// IgnoreExcludeLB: the speaker process runs with --ignore-exclude-lb.
+	IgnoreExcludeLB bool
 	Ifs     []string
 	AddrUniverse []string
 }
@@ -199,15 +207,21 @@ func newSpkSys(u *spkUniverse) *spkSys {
 	for n := range u.NodeVars {
 		s.putNode(n, 0)
 	}
-	s.putConfig(0)
+	s.putConfig(u.InitCfg)
 	s.start()
 	s.cfgQ.Add("config")
 	for n := range u.NodeVars {
 		s.nodeQ.Add(n)
 	}
-	if u.Preload {
-		n := u.Svcs[0]
-		s.store.Put(s.mkSvc(n, u.SvcVars[0]))
+	pre := u.Rich
+	if pre == nil {
+		for i := 0; i < u.Preload && i < len(u.Svcs); i++ {
+			pre = append(pre, [2]int{i, 0})
+		}
+	}
+	for _, pv := range pre {
+		n := u.Svcs[pv[0]]
+		s.store.Put(s.mkSvc(n, u.SvcVars[pv[1]]))
 		s.store.Put(&discovery.EndpointSlice{ObjectMeta: metav1.ObjectMeta{Name: n + "-eps", Namespace: "ns", Labels: map[string]string{discovery.LabelServiceName: n}},
 			AddressType: discovery.AddressTypeIPv4, Endpoints: u.EPVars[0].EPs})
 		s.svcQ.Add("ns/" + n)
@@ -264,6 +278,7 @@ func (s *spkSys) start() {
 	newBGP = func(cfg controllerConfig) bgp.SessionManager { return s.mgr }
 	c, err := newController(controllerConfig{
 		MyNode: spkMe, Namespace: spkNS, Logger: log.NewNopLogger(), SList: spkSList{s}, bgpType: bgpFrr,
+		IgnoreExcludeLB: s.u.IgnoreExcludeLB,
 		DisableLayer2: !s.u.L2, Layer2StatusChange: func(types.NamespacedName) { s.statusEvents++ },
 		BGPAdsChangedCallback: func(string) { s.adsEvents++ },
 	})
@@ -474,6 +489,17 @@ func (s *spkSys) Enabled() []verifrt.Event {
 	for i, n := range s.u.Svcs {
 		cur := s.svcObj(n)
 		for vi, v := range s.u.SvcVars {
+			if allowed, ok := s.u.SvcVarsFor[i]; ok {
+				in := false
+				for _, a := range allowed {
+					if a == vi {
+						in = true
+					}
+				}
+				if !in {
+					continue
+				}
+			}
 			if cur != nil && svcSig(cur) == svcSig(s.mkSvc(n, v)) {
 				continue
 			}
